@@ -70,7 +70,7 @@ PROPS = {
     },
     **{p: {
         'engine': 'streamsim',
-        'quick': {'runs': 8000, 'steps': (20, 50), 'deadline_s': 90, 'chunk': 50, 'seed': int(p[1:])},
+        'quick': {'runs': 12000, 'steps': (20, 50), 'deadline_s': 90, 'chunk': 50, 'seed': int(p[1:])},
         'thorough': {'runs': 100000, 'steps': (20, 80), 'deadline_s': 700, 'chunk': 100, 'seed': 1000 + int(p[1:])},
         'rule': ('one evaluation = one simulated history of public-API calls issued by stub unit operations on '
                  '3-7 (+ derived) real streams over three property packages; distinct = distinct abstract '
